@@ -47,16 +47,28 @@ def strat(draw, tier):
     sd = draw(gen.state_s(space, min_hw=2, max_hw=7 if tier == 'quick' else 9, floor_weight=2))
     f = draw(st.sampled_from(OCC))
     area = draw(gen.area_s(max_ext=4, ymax_zero=(f == 'partially_occluded')))
+    if draw(st.integers(0, 5)) == 0:
+        h, w = M.shape(sd)
+        if f == 'partially_occluded':
+            sd['agent'][0] = h - 1
+        y, x = sd['agent'][0], sd['agent'][1]
+        sd['agent'][2] = 'F'
+        area = [[-y, h - 1 - y], [-x, w - 1 - x]]      # the view that covers the grid exactly
     return {'state': sd, 'area': area, 'f': f, 'picks': draw(st.lists(st.integers(0, 10**6), min_size=3, max_size=3)),
             'repl': draw(st.lists(st.sampled_from(REPL), min_size=3, max_size=3)), 'seed': draw(gen.seed_s)}
 
 
 def oracle(case, ctx):
     sd, area, f = case['state'], case['area'], case['f']
-    od = guarded(ctx, f'observation {f}', obsutil.observe, f, sd, area)
+    S = objs.build_state(sd)
+    od = guarded(ctx, f'observation {f}', obsutil.observe, f, S, area)
     vh, vw = M.area_shape(area)
     anchor = (-area[0][0], -area[1][0])
     sig = {'kind': 'occlusion', 'f': f}
+    # looking must not change what is there: the same State object observed again gives the same answer and is unchanged
+    again = guarded(ctx, f'observation {f}', obsutil.observe, f, S, area)
+    if again != od or objs.canon_state(S) != sd:
+        ctx.fail(f'{f}: observing the same State object twice gives different observations / changes the state (area {area}, agent {sd["agent"][:3]}, grid {M.shape(sd)})', sig)
     sh = obsutil.shown(od)
     world_of = {(i, j): M.view_cell_to_world(sd, area, i, j) for i in range(vh) for j in range(vw)}
     # (2) own cell visible
@@ -192,6 +204,39 @@ def oracle_pattern(case, ctx):
     ctx.ev.case(case, nt=any(bits), classes=[f'view{h}x{w}'])
 
 
+# ------------------------------------------------------------------ (b2) the stochastic variant under extreme (legal) random draws
+
+
+@st.composite
+def strat_extreme(draw, tier):
+    space = draw(gen.space_s(must=('Floor', 'Wall')))
+    sd = draw(gen.state_s(space, min_hw=2, max_hw=7, floor_weight=2))
+    return {'state': sd, 'area': draw(gen.area_s(max_ext=3)), 'mode': draw(st.sampled_from(['low', 'high'])), 'prefix': draw(st.sampled_from([0, 1, 1, 3])),
+            'salt': draw(st.integers(0, 5))}
+
+
+def oracle_extreme(case, ctx):
+    """every value Generator.random can return is a possible draw: 0.0 must not reveal cells no ray reaches lit, and the
+    largest double below 1 must not hide cells that every ray reaches lit"""
+    import functools
+    from vgv.advrng import AdvRng
+    from gym_gridverse.envs import observation_functions as obs_fs
+    sd, area = case['state'], case['area']
+    det = guarded(ctx, 'raytracing', obsutil.observe, 'raytracing', sd, area)
+    lit = guarded(ctx, 'raytracing(relative, 1.0)', obsutil.observe, None, sd, area, None, 'raytracing', {'absolute_counts': False, 'threshold': 1.0})
+    f = functools.partial(obs_fs.observation_function_registry['stochastic_raytracing'], area=objs.build_area(area))
+    rng = AdvRng(case['mode'], case['prefix'], case['salt'])
+    st_ = objs.canon_state(guarded(ctx, 'stochastic_raytracing', f, objs.build_state(sd), rng=rng))
+    s_sh, d_sh, l_sh = obsutil.shown(st_), obsutil.shown(det), obsutil.shown(lit)
+    draws = f'{case["mode"]} draws for the first {case["prefix"]} call(s)'
+    if s_sh - d_sh:
+        ctx.fail(f'stochastic_raytracing shows cell(s) {sorted(s_sh - d_sh)[:4]} that no ray reaches lit ({draws}: a draw of exactly 0.0 is a legal outcome of Generator.random)',
+                 {'kind': 'stochastic_bounds', 'extreme': 'zero_draw'})
+    if l_sh - s_sh:
+        ctx.fail(f'stochastic_raytracing hides cell(s) {sorted(l_sh - s_sh)[:4]} that every ray reaches lit ({draws})', {'kind': 'stochastic_bounds', 'extreme': 'top_draw'})
+    ctx.ev.case(case, nt=(d_sh != l_sh), classes=['mode:' + case['mode'], f'prefix={case["prefix"]}'] + (['dark_cells_in_view'] if len(d_sh) < M.area_shape(area)[0] * M.area_shape(area)[1] else []))
+
+
 # ------------------------------------------------------------------ (c) large views (ray counts beyond small-integer ranges)
 
 LARGE = {'quick': [(9, 9), (11, 11), (13, 13), (15, 15)], 'thorough': [(9, 9), (11, 11), (13, 13), (15, 15), (17, 17), (7, 31), (31, 7), (21, 21), (15, 31)]}
@@ -245,4 +290,7 @@ CHECKS = [
                'own cell, linkage, flipping any hidden cell, clearing any visible opaque cell, stochastic bounds'),
     Check('large_views', oracle_large, enumerate=enum_large, shards={'quick': 8, 'thorough': 16},
           rule='views 9x9..15x15 (thorough: up to 21x21, 7x31, 31x7, 15x31) empty and with sparse wall patterns: own cell, linkage, unobstructed view shows everything, stochastic bounds'),
+    Check('stochastic_extremes', oracle_extreme, strategy=strat_extreme, examples={'quick': 250, 'thorough': 1000}, shards={'quick': 2, 'thorough': 8},
+          rule='stochastic_raytracing driven by an adversarial Generator whose draws are legal extremes (exactly 0.0, the largest double below 1) : shown set between its deterministic bounds',
+          required=['mode:low', 'mode:high', 'dark_cells_in_view']),
 ]
